@@ -3,22 +3,37 @@
 Protocol: notes/C02-protocol.md.  One `enum` op = one generated grammar run on *all* inputs over a small
 alphabet up to a length bound (digest); `refine` turns a differing digest into the single differing input.
 """
+import os
+
 from vlib.runner import Batch
 
 ID = "C02"
 LEAN_PROPS = ["FcpptProofs.Props.C02"]
-HARNESS = {"src": "harness/c02.cpp", "repo_srcs": ["libs/core/src/insert_extract_locale.cpp", "libs/core/src/exception.cpp"]}
-TIE = ("hand-written position-threading model (FcpptModel/Model/C02.lean) proved equal to the position-free PEG semantics; "
-       "differential correspondence against grammars built at run time from the real fcppt::parse templates")
+# the typed family is compiled as separate translation units (in parallel); vlib joins repo_srcs onto the /repo path, an
+# absolute path passes through unchanged
+_H = os.path.normpath(os.path.join(os.path.dirname(os.path.abspath(__file__)), "..", "harness"))
+# -g1: line tables only (enough for the sanitizers' reports); the 17 template-heavy translation units need a third less
+# time and memory than with full debug information
+HARNESS = {"src": "harness/c02.cpp", "flags": ["-g1"],
+           "repo_srcs": ["libs/core/src/insert_extract_locale.cpp", "libs/core/src/exception.cpp"] +
+                        [os.path.join(_H, f"c02_typed_{i}.cpp") for i in range(16)] + [os.path.join(_H, "c02_typed_rec.cpp")]}
+TIE = ("hand-written position-threading model (FcpptModel/Model/C02.lean) proved equal to the position-free PEG semantics, plus a model "
+       "of the typed result plumbing (Model/C02/Typed.lean) proved type-preserving; differential correspondence against grammars built at "
+       "run time from the real fcppt::parse templates (universal value) AND against 314 statically typed instantiations (natural result "
+       "types: static type + flattened value compared)")
 RULE = ("enum: one generated well-formed grammar (<= 3 rules, depth <= 5, every combinator and skipper kind) x ALL inputs over a "
         "3-6 letter alphabet up to length 5-6 (quick) / 7-8 (thorough), char and wchar_t, entry points parse_string / "
-        "phrase_parse_string / grammar_parse_string; the digest covers success value, failure and fatal flag of every input. "
+        "phrase_parse_string / grammar_parse_string / phrase_parse_stream / grammar_parse_stream (stream offset after success and "
+        "failure included); the digest covers success value, failure and fatal flag of every input. tenum: the same for one statically "
+        "typed shape (static result type + flattened value). Systematic batches: ALL well-formed terms of depth <= 2 over "
+        "seq/alt/rep/opt/not and the nests of save/restore sites, under idempotent and non-idempotent skippers. "
         "An op is non-trivial if at least one input succeeds and one fails; distinct = distinct op lines; evaluations = inputs parsed.")
 ASSUMPTIONS = [
     "std::basic_istringstream get/tellg/seekg/clear behave as a random-access character array (C12 models the stream itself)",
     "convert / convert_if functions are pure; the theorems hold for arbitrary function tables",
     "istream >> unsigned short / short on a digit string: value if representable, failure otherwise (num_get, classic locale)",
-    "universal value type Val in the harness: the typed result plumbing (sequence_result / alternative_result flattening) is instantiated only at Val",
+    "istream >> double on digits '.' digits: the correctly rounded (nearest-even) binary64, failure on overflow (glibc strtod); decToDouble is validated by correspondence, not proved",
+    "typed layer: convert / convert_if with user functions have no modelled result type (typeOf = none); statically typed harness shapes are non-recursive (the theorem covers ref under WT)",
 ]
 TRUSTED = ["harness/c02.cpp, the op-line grammar decoder on both sides and the digest/line protocol (vh.hpp, Proto.lean)",
            "g++ 12 + ASan/UBSan as witness for memory safety of the instantiations",
@@ -28,7 +43,8 @@ TRUSTED = ["harness/c02.cpp, the op-line grammar decoder on both sides and the d
 
 LEAF_W = [("lit", 10), ("cset", 8), ("compl", 3), ("any", 3), ("str", 4), ("eps", 2), ("fail", 1)]
 NODE_W = [("seq", 16), ("alt", 14), ("rep", 8), ("plus", 5), ("opt", 8), ("not", 5), ("fatal", 6), ("lex", 4),
-          ("ign", 2), ("named", 3), ("rec", 2), ("conv", 4), ("cif", 5), ("sep", 5), ("list", 4), ("ref", 7), ("leaf", 14)]
+          ("ign", 2), ("named", 3), ("rec", 2), ("conv", 4), ("cif", 5), ("sep", 5), ("list", 4), ("ref", 7), ("leaf", 14),
+          ("con", 2), ("ast", 2), ("cst", 2)]
 
 
 def pick(rng, table):
@@ -67,7 +83,7 @@ class Gen:
 
     def leaf(self, want_nonnull=False):
         r = self.rng
-        table = LEAF_W + ([("uint", 6), ("int", 6)] if self.numeric else [])
+        table = LEAF_W + ([("uint", 6), ("int", 6), ("float", 6)] if self.numeric else [])
         while True:
             k = pick(r, table)
             if want_nonnull and k == "eps":
@@ -84,7 +100,7 @@ class Gen:
             n = r.range(1 if want_nonnull else 0, 3)
             s = "".join(r.choice(self.alpha) for _ in range(n))
             return "str:" + s, n == 0
-        if k in ("any", "fail", "uint", "int"):
+        if k in ("any", "fail", "uint", "int", "float"):
             return k, False
         return "eps", True
 
@@ -140,6 +156,17 @@ class Gen:
         if k == "conv":
             a, na = self.gen(d, guarded)
             return f"conv:{r.below(3)}.{a}", na
+        if k == "con":
+            a, na = self.gen(d, guarded)
+            return f"con:{20 + r.below(10)}.{a}", na
+        if k == "ast":
+            a, na = self.gen(d, guarded)
+            b, nb = self.gen(d, guarded or not na)
+            return f"ast:{30 + r.below(10)}.seq.{a}.{b}", na and nb
+        if k == "cst":
+            a, na = self.gen(d, guarded)
+            c = f"i{r.below(100)}" if r.chance(1, 2) else "c" + r.choice(self.alpha)
+            return f"cst:{c}.{a}", na
         if k == "cif":
             j = r.below(3)
             if j == 1:
@@ -183,6 +210,285 @@ class Gen:
         return ";".join(rules)
 
 
+# ---------------------------------------------------------------------------------------------- typed family
+
+ARITY = {"cif": 1, "conv": 1, "rec": 1, "ref": 0, "copy": 1, "cref": 1, "box": 1, "same": 0, "spc": 0, "blk": 0, "dig": 0, "eps": 0, "fail": 0, "any": 0, "lit": 0, "cset": 0, "compl": 0, "str": 0, "uint": 0, "int": 0, "float": 0,
+         "seq": 2, "alt": 2, "rep": 1, "plus": 1, "opt": 1, "not": 1, "fatal": 1, "lex": 1, "ign": 1, "named": 1,
+         "sep": 2, "list": 4, "con": 1, "ast": 1, "cst": 1}
+
+
+def parse_prefix(text):
+    """grammar text (one rule, prefix notation) -> nested tuple (name, param, kids)"""
+    toks = text.split(".")
+    pos = [0]
+
+    def go():
+        t = toks[pos[0]]
+        pos[0] += 1
+        name, _, param = t.partition(":")
+        kids = [go() for _ in range(ARITY[name])]
+        return (name, param, kids)
+
+    r = go()
+    assert pos[0] == len(toks), text
+    return r
+
+
+def shape_cpp(node, decls=None):
+    """the C++ expression of a shape: the real combinators with their natural result types.
+    decls collects `auto vN = <parser>;` statements: `copy.X` hands the enclosing combinator a copy of a named parser
+    object (lvalue operands themselves are not accepted by the library, notes/C02.md), `cref.X` an fcppt::reference to
+    it, `box.X` a base_unique_ptr (make_base), `same` the very same object as the preceding operand."""
+    name, param, kids = node
+    if decls is None:
+        decls = []
+    if name in ("copy", "cref"):
+        inner = shape_cpp(kids[0], decls)
+        v = f"v{len(decls)}"
+        decls.append(f"auto const {v} = {inner};")
+        return f"std::remove_cvref_t<decltype({v})>{{{v}}}" if name == "copy" else f"fcppt::make_cref({v})"
+    if name == "box":
+        return f"box<Ch>({shape_cpp(kids[0], decls)})"
+    k = []
+    for x in kids:
+        if x[0] == "same":
+            assert k and (k[-1].startswith("std::remove_cvref_t<decltype(v") or k[-1].startswith("fcppt::make_cref(v")), node
+            k.append(k[-1])
+        else:
+            k.append(shape_cpp(x, decls))
+    if name in ("spc", "blk"):
+        fn = "space" if name == "spc" else "blank"
+        return f"fp::basic_char_set<Ch>{{fp::{fn}_set<Ch>()}}"
+    if name == "dig":
+        return "fp::digits<Ch>()"
+    if name == "eps":
+        return "fp::epsilon{}"
+    if name == "fail":
+        return "fp::fail<fcppt::unit>{}"
+    if name == "any":
+        return "any<Ch>()"
+    if name == "lit":
+        return f"lit<Ch>('{param}')"
+    if name == "cset":
+        return f'cs<Ch>("{param}")'
+    if name == "compl":
+        return f'(~cs<Ch>("{param}"))'
+    if name == "str":
+        return f'str<Ch>("{param}")'
+    if name == "uint":
+        return "fp::uint<unsigned short>{}"
+    if name == "int":
+        return "fp::int_<short>{}"
+    if name == "float":
+        return "fp::float_<double>{}"
+    if name == "seq":
+        return f"({k[0]} >> {k[1]})"
+    if name == "alt":
+        return f"({k[0]} | {k[1]})"
+    if name == "rep":
+        return f"(*{k[0]})"
+    if name == "plus":
+        return f"(+{k[0]})"
+    if name == "opt":
+        return f"(-{k[0]})"
+    if name == "not":
+        return f"(!{k[0]})"
+    if name == "fatal":
+        return f"fp::make_fatal({k[0]})"
+    if name == "lex":
+        return f"fp::make_lexeme({k[0]})"
+    if name == "ign":
+        return f"fp::make_ignore({k[0]})"
+    if name == "named":
+        return f"nm<Ch>({k[0]})"
+    if name == "sep":
+        return f"fp::separator{{{k[0]}, {k[1]}}}"
+    if name == "list":
+        return f"fp::list{{{k[0]}, {k[1]}, {k[2]}, {k[3]}}}"
+    if name == "con":
+        return f"con<{int(param)}>({k[0]})"
+    if name == "ast":
+        return f"ast<{int(param)}>({k[0]})"
+    if name == "cst":
+        if param[0] == "i":
+            return f"fp::convert_const{{{k[0]}, short{{{int(param[1:])}}}}}"
+        if param[0] == "s":
+            return f'fp::convert_const{{{k[0]}, cstr<Ch>("{param[1:]}")}}'
+        return f"fp::convert_const{{{k[0]}, chr<Ch>('{param[1]}')}}"
+    raise AssertionError(name)
+
+
+def typed_shapes():
+    """[(grammar text, alphabet, also_wide)] — systematic over the cases of sequence_result / alternative_result /
+    repetition_result; every operand is selectable by its own character so that all branches are reached.
+    also_wide: the shape is instantiated for wchar_t (under a literal skipper) as well as for char."""
+    out = []
+    seen = set()
+
+    def add(g, alpha="abc", wide=None):
+        if g in seen:
+            return
+        seen.add(g)
+        if wide is None:      # everything with a string / number in it, and every third of the rest
+            wide = any(t in g for t in ("plus.cset", "rep.cset", "str", "uint", "int", "float")) or len(out) % 3 == 0
+        out.append((g, alpha, wide))
+
+    U, C, S, OU, T2, VU = "lit:a", "cset:bc", "plus.cset:c", "opt.lit:b", "seq.cset:a.cset:b", "plus.lit:a"
+    # 1. sequence of two parts: every pair of operand classes (unit / char / string / optional / tuple / vector)
+    parts2 = [U, C, S, OU, T2, VU]
+    for x in parts2:
+        for y in parts2:
+            add(f"seq.{x}.{y}")
+    # 2./3. three and four parts over {unit, char}: both groupings; plus a tuple / string / optional in every position
+    uc = ["lit:a", "cset:bc"]
+    for x in uc:
+        for y in uc:
+            for z in uc:
+                add(f"seq.seq.{x}.{y}.{z}")
+                add(f"seq.{x}.seq.{y}.{z}")
+                for w in uc:
+                    add(f"seq.seq.seq.{x}.{y}.{z}.{w}")
+                    add(f"seq.seq.{x}.{y}.seq.{z}.{w}")
+    for i in range(3):
+        for special in (T2, S, OU):
+            ps = ["cset:bc", "lit:a", "cset:ab"]
+            ps[i] = special
+            add(f"seq.seq.{ps[0]}.{ps[1]}.{ps[2]}")
+            add(f"seq.{ps[0]}.seq.{ps[1]}.{ps[2]}")
+    add("seq.seq.cset:a.cset:b.seq.cset:b.cset:c")        # tuple >> tuple
+    add("seq.lit:a.seq.lit:b.lit:c")                      # all units
+    add("seq.eps.cset:a"), add("seq.cset:a.eps"), add("seq.eps.eps"), add("seq.str:ab.cset:c"), add("seq.opt.cset:b.str:ab")
+    # 4. alternatives: pairs, nested triples (both groupings), merges of two variants
+    alts = ["lit:a", "cset:b", "plus.cset:c", "lit:c", "seq.cset:a.cset:b"]
+    for x in alts:
+        for y in alts:
+            add(f"alt.{x}.{y}")
+    tri = ["lit:a", "cset:b", "plus.cset:c"]
+    for x in tri:
+        for y in tri:
+            for z in tri:
+                add(f"alt.alt.{x}.{y}.{z}")
+                add(f"alt.{x}.alt.{y}.{z}")
+    for g in ("alt.alt.lit:a.cset:b.lit:c", "alt.lit:a.alt.cset:b.lit:c", "alt.alt.lit:a.lit:c.cset:b", "alt.lit:a.alt.lit:c.cset:b",
+              "alt.alt.cset:b.lit:a.cset:c", "alt.cset:b.alt.lit:a.cset:c"):
+        add(g)
+    for l in ("alt.cset:a.lit:b", "alt.lit:b.cset:a"):
+        for r in ("alt.lit:c.cset:b", "alt.cset:c.lit:a", "alt.plus.cset:c.cset:b", "alt.lit:c.lit:a"):
+            add(f"alt.{l}.{r}")
+    add("alt.seq.cset:a.cset:b.seq.cset:b.cset:a")        # the same tuple type twice: stays a tuple
+    add("alt.opt.cset:a.cset:b")                          # optional | char (left nullable)
+    add("alt.fail.cset:a"), add("alt.cset:a.fail")
+    # 5. repetition / repetition_plus / optional over every element class
+    elems = ["lit:a", "cset:ab", "seq.lit:a.cset:b", "seq.cset:a.cset:b", "seq.plus.cset:a.lit:b",
+             "seq.opt.cset:a.lit:b", "alt.cset:a.lit:b", "seq.lit:a.lit:b", "plus.cset:c"]
+    for e in elems:
+        add(f"rep.{e}")
+        add(f"opt.{e}")
+        if e != "seq.cset:a.cset:b":               # +p of a tuple-typed p does not instantiate (notes/C02.md)
+            add(f"plus.{e}")
+    add("opt.opt.cset:a"), add("opt.rep.cset:a"), add("rep.seq.cset:a.opt.cset:b"), add("plus.seq.lit:a.opt.lit:b")
+    add("seq.rep.cset:a.rep.cset:b"), add("seq.plus.lit:a.plus.cset:b")
+    # 6. wrappers keep / drop the type
+    for w in ("fatal", "lex", "named", "ign"):
+        for e in ("cset:ab", "seq.cset:a.cset:b", "lit:a"):
+            add(f"{w}.{e}")
+    add("not.lit:a"), add("not.ign.cset:ab"), add("not.str:ab")       # not_ static_asserts a unit-typed operand
+    add("seq.not.lit:a.cset:ab"), add("seq.cset:ab.not.lit:a"), add("alt.fatal.seq.cset:a.cset:b.cset:a")
+    add("compl:a"), add("any"), add("str:ab"), add("eps"), add("fail")
+    # 7. separator / list: always a vector of the inner type (never a string)
+    for e in ("cset:ab", "lit:a", "seq.cset:a.cset:b", "plus.cset:a", "seq.lit:a.cset:b", "opt.cset:a"):
+        add(f"sep.{e}.lit:c")
+        add(f"list.lit:c.{e}.lit:b.lit:c")
+    add("sep.cset:ab.str:cc"), add("seq.sep.cset:a.lit:b.cset:c"), add("list.str:ab.cset:c.lit:b.str:ba")
+    # 8. construct / as_struct / convert_const
+    for e in ("cset:ab", "plus.cset:a", "seq.cset:a.cset:b", "lit:a", "opt.cset:a", "alt.cset:a.lit:b"):
+        add(f"con:21.{e}")
+    for e in ("seq.cset:a.cset:b", "seq.cset:a.seq.rep.cset:b.opt.cset:c", "seq.seq.cset:a.lit:b.cset:c",
+              "seq.cset:a.seq.lit:b.seq.cset:b.cset:c"):
+        add(f"ast:31.{e}")
+    add("cst:i7.lit:a"), add("cst:cx.lit:a"), add("cst:i7.str:ab"), add("cst:i7.not.lit:a")
+    add("alt.cst:i1.lit:a.cst:i2.lit:b"), add("alt.cst:i1.lit:a.cset:b"), add("seq.cst:i1.lit:a.cst:cx.lit:b")
+    add("rep.cst:i3.lit:a"), add("opt.cst:cx.lit:a")
+    add("seq.con:21.cset:a.ast:31.seq.cset:b.cset:c"), add("ast:32.seq.con:21.cset:a.cset:b")
+    add("alt.con:21.cset:a.con:22.cset:b"), add("alt.con:21.cset:a.con:21.cset:a"), add("rep.ast:31.seq.cset:a.cset:b")
+    add("seq.con:21.cset:a.con:21.cset:a")
+    # 10. how an operand is handed over (is_valid_argument: by value, by fcppt::reference, by unique_ptr), lvalues, and
+    #     the SAME parser object used twice; a convert_const constant that owns memory, used repeatedly
+    for g in ("seq.copy.cset:a.copy.lit:b", "seq.cref.cset:a.cref.plus.cset:b", "seq.box.cset:a.box.lit:b", "alt.box.cset:a.copy.lit:b",
+              "alt.cref.plus.cset:a.box.cset:b", "rep.cref.cset:a", "rep.box.seq.lit:a.cset:b", "plus.box.lit:a", "plus.cref.cset:a",
+              "plus.copy.seq.lit:a.cset:b", "opt.copy.cset:a", "opt.box.seq.cset:a.cset:b", "not.cref.lit:a", "not.box.str:ab",
+              "sep.box.cset:a.cref.lit:b", "sep.cref.cset:a.copy.lit:b", "list.copy.lit:a.cref.cset:b.box.lit:c.copy.lit:a",
+              "con:21.cref.cset:a", "ast:31.box.seq.cset:a.cset:b", "ast:31.cref.seq.cset:a.plus.cset:b", "fatal.cref.cset:a",
+              "lex.box.cset:a", "cst:i7.cref.lit:a", "cst:i7.box.lit:a", "named.box.cset:a", "named.cref.seq.cset:a.cset:b",
+              "ign.cref.cset:a", "ign.box.plus.cset:a",
+              "seq.cref.cset:ab.same", "seq.copy.plus.cset:a.same", "alt.cref.lit:a.same", "alt.cref.cset:ab.same",
+              "sep.cref.lit:a.same", "seq.seq.cref.cset:ab.same.cset:c", "rep.seq.cref.cset:ab.same",
+              "rep.cst:sab.lit:c", "plus.cst:sab.lit:b", "seq.cst:sab.lit:a.cst:sab.lit:b", "sep.cst:sa.lit:a.lit:b",
+              "alt.cst:sab.lit:a.plus.cset:c", "cst:s.lit:a", "spc", "blk", "dig", "rep.dig"):
+        # a boxed parser is committed to its world's skipper: under lexeme (which passes epsilon) only in the epsilon world
+        add(g, "abc", wide=(g != "lex.box.cset:a"))
+    # 9. numbers
+    for g in ("uint", "int", "seq.uint.lit:a", "seq.opt.lit:a.int", "alt.uint.int", "alt.int.uint", "rep.seq.uint.lit:a",
+              "sep.int.lit:a", "seq.uint.uint"):
+        add(g, "1-a9")
+    for g in ("float", "seq.float.lit:a", "alt.float.uint", "opt.float"):
+        add(g, "1!-a")
+    return out
+
+
+TYPED_CHUNKS = 16
+HDIR = os.path.normpath(os.path.join(os.path.dirname(os.path.abspath(__file__)), "..", "harness"))
+
+
+def gen_typed_files():
+    """{file name under harness/: content}: the table and the TYPED_CHUNKS translation units of the typed family"""
+    shapes = typed_shapes()
+    files = {"c02_typed_table.inc": "// GENERATED by props/c02.py gen_typed_files()\n" +
+             "".join(f"C02_TYPED_CHUNK({i})\n" for i in range(TYPED_CHUNKS))}
+    for i in range(TYPED_CHUNKS):
+        lines = ["// GENERATED by props/c02.py gen_typed_files() — do not edit; regenerate with",
+                 "//   python3 -c 'import props.c02 as c; c.write_typed_files()'",
+                 '#include "c02_typed.hpp"', "", "namespace c02typed", "{",
+                 f"bool chunk_{i}(unsigned const _world, wchar_t const _skip, std::string const &_grammar, top const &_op, std::string &_result)",
+                 "{"]
+        for g, _, wide in shapes[i::TYPED_CHUNKS]:
+            node = parse_prefix(g)
+            lines.append(f'  if (_grammar == "{g}")')
+            lines.append("  {")
+            decls = []
+            expr = shape_cpp(node, decls)
+            for ch, cond in (("char", "_world == 0"), ("wchar_t", "_world == 1")):
+                if ch == "wchar_t" and not wide:
+                    continue
+                lines.append(f"    if ({cond})")
+                lines.append("    {")
+                lines.append(f"      using Ch = {ch};")
+                for d in decls:
+                    lines.append("      " + d)
+                lines.append(f"      run_shape<Ch>(_world, _skip, {expr}, _op, _result);")
+                lines.append("    }")
+            lines.append("    return true;")
+            lines.append("  }")
+        lines += ["  return false;", "}", "}", ""]
+        files[f"c02_typed_{i}.cpp"] = "\n".join(lines)
+    return files
+
+
+def write_typed_files():
+    for name, content in gen_typed_files().items():
+        open(os.path.join(HDIR, name), "w").write(content)
+
+
+def typed_files_current():
+    for name, content in gen_typed_files().items():
+        try:
+            if open(os.path.join(HDIR, name)).read() != content:
+                return False
+        except OSError:
+            return False
+    return True
+
+
 SKIPS = {
     # skipper token -> extra alphabet characters it needs
     "E": "", "S": "_", "Rx": "x", "Lx": "x", "Qxy": "xy", "Qx": "x", "Cxy": "xy", "R_/": "_/", "Rab": "",
@@ -195,14 +501,14 @@ def n_inputs(k, maxlen):
 
 def weight(op):
     t = op.split()
-    if t[0] == "enum":
+    if t[0] in ("enum", "tenum"):
         return n_inputs(len(t[4]) - 1, int(t[5]))
     return 1
 
 
 def nontrivial(op, result):
     t = op.split()
-    if t[0] != "enum":
+    if t[0] not in ("enum", "tenum"):
         return True
     f = dict(x.split("=") for x in result.split()[2:] if "=" in x)
     return int(f.get("ok", 0)) > 0 and int(f.get("fail", 0)) + int(f.get("fatal", 0)) > 0
@@ -224,10 +530,11 @@ def all_strings(alpha, maxlen):
 
 def refine(op):
     t = op.split()
-    if t[0] != "enum":
+    if t[0] not in ("enum", "tenum"):
         return None
     alpha, maxlen = t[4][1:], int(t[5])
-    return [f"run {t[1]} {t[2]} {t[3]} ={s}" for s in all_strings(alpha, maxlen)]
+    one = "run" if t[0] == "enum" else "typed"
+    return [f"{one} {t[1]} {t[2]} {t[3]} ={s}" for s in all_strings(alpha, maxlen)]
 
 
 def make_ops(rng, count, maxlen_small, maxlen_big, stats, sk_choices, numeric=False, wide_share=3):
@@ -235,7 +542,7 @@ def make_ops(rng, count, maxlen_small, maxlen_big, stats, sk_choices, numeric=Fa
     for _ in range(count):
         sk = rng.choice(sk_choices)
         if numeric:
-            base = rng.choice(["19-", "356", "07a", "-12", "32768"])
+            base = rng.choice(["19-", "356", "07a", "-12", "32768", "1!-", "05!", "!27"])
         else:
             base = rng.choice(["abc", "abc", "ab", "abcd", "ab@"])
         extra = "".join(c for c in SKIPS[sk] if c not in base)
@@ -247,7 +554,10 @@ def make_ops(rng, count, maxlen_small, maxlen_big, stats, sk_choices, numeric=Fa
         nrules = rng.choice([1, 1, 2, 3])
         g = Gen(rng, gen_alpha, numeric=numeric, nrules=nrules, maxdepth=rng.choice([3, 4, 4, 5]), stats=stats)
         gr = g.grammar()
-        entry = rng.choice(["p", "h", "g"]) if sk == "E" else rng.choice(["h", "g"])
+        # p/h/g: the string entry points (consume_remaining); s/r: the stream entry points (the offset the stream is left
+        # at, after success and after failure, is part of the answer)
+        # q: fcppt::parse::parse on a basic_stream, t: parse_stream (both epsilon only)
+        entry = rng.choice(["p", "h", "g", "s", "r", "q", "t"]) if sk == "E" else rng.choice(["h", "g", "s", "r"])
         maxlen = maxlen_big if len(alpha) <= 3 else maxlen_small
         while n_inputs(len(alpha), maxlen) > 12000 and maxlen > 3:
             maxlen -= 1
@@ -262,8 +572,233 @@ def fmt_stats(stats):
     return " ".join(f"{k}={v}" for k, v in sorted(stats.items()))
 
 
+# ---------------------------------------------------------------------------------------------- systematic families
+
+def sys_nullable(node):
+    n, _, k = node
+    if n in ("eps", "rep", "opt", "not", "sep", "ref"):
+        return True
+    if n in ("lex", "named", "ign", "cif", "conv", "con", "cst", "rec"):
+        return sys_nullable(k[0])
+    if n == "list":
+        return sys_nullable(k[0]) and sys_nullable(k[3])
+    if n == "str":
+        return node[1] == ""
+    if n == "seq":
+        return sys_nullable(k[0]) and sys_nullable(k[1])
+    if n == "alt":
+        return sys_nullable(k[0]) or sys_nullable(k[1])
+    if n in ("fatal", "plus"):
+        return sys_nullable(k[0])
+    return False
+
+
+def sys_wf(node):
+    n, _, k = node
+    if n in ("rep", "plus") and sys_nullable(k[0]):
+        return False
+    if n == "sep" and sys_nullable(k[0]) and sys_nullable(k[1]):
+        return False
+    if n == "list" and sys_nullable(k[1]) and sys_nullable(k[2]):
+        return False
+    return all(sys_wf(x) for x in k)
+
+
+def small_terms():
+    """ALL parser terms of depth <= 2 over {seq, alt, rep, opt, not} and the leaves 'a', "ab", any that are well-formed:
+    every way two save/restore sites (alternative, optional, not_, repetition) can be nested or be siblings"""
+    leaves = ["lit:a", "str:ab", "any"]
+    d1 = list(leaves)
+    for u in ("rep", "opt", "not"):
+        d1 += [f"{u}.{x}" for x in leaves]
+    for b in ("seq", "alt"):
+        d1 += [f"{b}.{x}.{y}" for x in leaves for y in leaves]
+    d2 = list(d1)
+    for u in ("rep", "opt", "not"):
+        d2 += [f"{u}.{x}" for x in d1 if x not in leaves]
+    for b in ("seq", "alt"):
+        d2 += [f"{b}.{x}.{y}" for x in d1 for y in d1 if not (x in leaves and y in leaves)]
+    return [g for g in d2 if sys_wf(parse_prefix(g))]
+
+
+def interplay_terms():
+    """two-step save/restore interplay, depth 3-5: an alternative inside a repetition inside an optional followed by a sibling
+    that must start where the nest stopped; not_ around consuming parsers (single characters, strings, sequences, loops)
+    followed by a sibling that must see the original position; partial consumption + fatal at every such site"""
+    cons = ["lit:a", "str:ab", "any", "seq.lit:a.lit:b", "seq.any.lit:b"]          # consuming, non-nullable
+    out = []
+    for x in cons:
+        for y in cons:
+            for z in ("lit:a", "str:ab", "any"):
+                out.append(f"seq.opt.rep.alt.{x}.{y}.{z}")
+    for x in cons[:4]:
+        for y in cons[:4]:
+            out.append(f"opt.rep.alt.{x}.{y}")
+            out.append(f"rep.alt.seq.{x}.{y}.lit:b")
+            out.append(f"seq.rep.alt.seq.{x}.{y}.any.lit:a")
+            out.append(f"opt.seq.{x}.rep.alt.{y}.lit:b")
+    looks = cons + ["rep.lit:a", "plus.lit:a", "opt.str:ab", "alt.str:ab.lit:a", "not.lit:a"]
+    for w in ("eps", "lit:a", "opt.lit:a", "rep.lit:b"):
+        for x in looks:
+            for y in ("lit:a", "str:ab", "any", "seq.lit:a.lit:b"):
+                out.append(f"seq.seq.{w}.not.{x}.{y}")
+    for x in looks:
+        for y in ("lit:a", "str:ab", "any"):
+            out.append(f"rep.seq.not.{x}.{y}")
+            out.append(f"alt.seq.not.{x}.{y}.any")
+            out.append(f"opt.seq.not.not.{x}.{y}")
+    lv = ["lit:a", "str:ab", "any"]
+    for x in lv:
+        for y in lv:
+            out.append(f"opt.seq.{x}.fatal.{y}")
+            out.append(f"rep.seq.{x}.fatal.{y}")
+            out.append(f"seq.not.seq.{x}.fatal.{y}.any")
+            out.append(f"seq.not.fatal.{x}.{y}")
+            for z in lv:
+                out.append(f"alt.seq.{x}.fatal.{y}.{z}")
+                out.append(f"alt.{x}.seq.{y}.fatal.{z}")
+                out.append(f"alt.opt.seq.{x}.fatal.{y}.{z}")
+                out.append(f"rep.alt.seq.{x}.fatal.{y}.{z}")
+    # lexeme at every place relative to a sequence / repetition (the skipper is off inside, on again outside)
+    for x in cons:
+        for y in lv:
+            out += [f"lex.seq.{x}.{y}", f"seq.lex.seq.{x}.{y}.lit:a", f"seq.{y}.lex.seq.{x}.{y}", f"rep.lex.seq.{x}.{y}",
+                    f"lex.rep.seq.{x}.{y}", f"seq.lex.rep.{x}.{y}", f"seq.{x}.lex.rep.{y}", f"alt.lex.seq.{x}.{y}.seq.{x}.{y}",
+                    f"lex.seq.{x}.lex.{y}", f"opt.lex.seq.{x}.fatal.{y}"]
+    # the derived combinators: separator / list / plus with consuming and with failing-late parts, and a sibling behind them
+    for x in cons:
+        for y in cons[:4]:
+            out += [f"sep.{x}.{y}", f"seq.sep.{x}.{y}.lit:b", f"seq.sep.{x}.{y}.any", f"seq.plus.{x}.{y}", f"alt.plus.seq.{x}.{y}.{x}"]
+    for x in cons[:4]:
+        for sp in ("lit:b", "str:ab", "any"):
+            out += [f"list.lit:a.{x}.{sp}.lit:b", f"list.lit:a.{x}.{sp}.lit:a", f"seq.list.any.{x}.{sp}.lit:a.any",
+                    f"list.str:ab.{x}.{sp}.str:ab", f"rep.list.lit:a.{x}.{sp}.lit:b", f"list.lit:a.{x}.{sp}.fatal.lit:b",
+                    f"list.lit:a.fatal.{x}.{sp}.lit:b"]
+    # named keeps errors and the fatal flag; convert_if: a non-fatal and a FATAL failure produced by the user function
+    for x in lv:
+        for y in lv:
+            out += [f"alt.named.fatal.{x}.{y}", f"alt.named.seq.{x}.fatal.{y}.any", f"opt.named.seq.{x}.fatal.{y}", f"rep.named.seq.{x}.{y}",
+                    f"not.named.fatal.{x}", f"alt.seq.{x}.cif:2.any.{y}", f"opt.seq.{x}.cif:2.any", f"rep.seq.{x}.cif:2.any",
+                    f"seq.not.seq.{x}.cif:2.any.{y}", f"alt.seq.{x}.cif:0.any.{y}", f"rep.cif:0.any", f"alt.cif:1.rep.{x}.{y}",
+                    f"seq.cst:i7.{x}.con:21.{y}", f"alt.ast:31.seq.{x}.{y}.{y}"]
+    # recursion: right recursion, nesting a^n b^n, mutual recursion, recursion through not_ / optional / repetition, make_recursive
+    out += ["alt.seq.lit:a.ref:0.eps", "seq.lit:a.opt.ref:0", "alt.seq.lit:a.seq.ref:0.lit:b.eps", "alt.seq.lit:a.seq.ref:0.lit:b.str:ab",
+            "seq.lit:a.ref:1;alt.seq.lit:b.ref:0.eps", "seq.any.rep.ref:1;seq.lit:b.opt.ref:0", "seq.lit:a.rec.opt.ref:0",
+            "alt.seq.lit:a.seq.not.ref:0.any.lit:b", "seq.lit:a.alt.ref:0.fatal.lit:b", "seq.lit:a.rep.seq.lit:b.ref:0",
+            "list.lit:a.ref:0.lit:b.lit:a", "seq.str:ab.sep.ref:0.lit:a", "alt.seq.lit:a.ref:1.lit:b;alt.seq.lit:b.ref:2.lit:a;opt.seq.any.ref:0"]
+    seen, res = set(), []
+    for g in out:
+        if g not in seen and all(sys_wf(parse_prefix(r)) for r in g.split(";")):
+            seen.add(g)
+            res.append(g)
+    return res
+
+
+# non-idempotent skippers: every call of `Lx` / `Cx` consumes exactly one 'x' (and fails without one), `Qx` one 'x' and then
+# nothing more; `Rx` is the idempotent reference; `E` none
+SYS_SKIPS = ["E", "Lx", "Cx", "Qx", "Rx"]
+
+
+def sys_ops(terms, maxlen, skips, stride=1, offset=0):
+    ops = []
+    i = 0
+    for g in terms:
+        for sk in skips:
+            i += 1
+            if (i + offset) % stride:
+                continue
+            # the stream entry points show the position after success AND after failure; the string ones consume_remaining
+            e = ("s", "h", "r", "g")[i % 4] if sk != "E" else ("s", "p", "t", "g", "q", "h", "r")[i % 7]
+            alpha = "ab" if sk == "E" else "abx"
+            ml = maxlen + 1 if sk == "E" else maxlen
+            ops.append(f"enum c{e} {sk} {g} ={alpha} {ml}")
+    return ops
+
+
+REC_GRAMMAR = "con:21.list.lit:x.ref:1.lit:y.lit:z;seq.seq.plus.cset:abc.lit:e.rec.ref:0"
+
+
+def typed_ops(maxlen):
+    # the hand-written recursive typed grammar (harness/c02_typed_rec.cpp): all inputs over {a,e,x,y,z} resp. + the skipper's s
+    ops = [f"tenum cg E {REC_GRAMMAR} =aexyz {maxlen + 2}", f"tenum wg Ls {REC_GRAMMAR} =aexyzs {maxlen + 1}",
+           f"typed cg E {REC_GRAMMAR} =xabexzycexaexzzz", f"typed cg E {REC_GRAMMAR} =xaexbexcexzzzyaexzz",
+           f"typed wg Ls {REC_GRAMMAR} =sxsassesxszssz", f"typed wg Ls {REC_GRAMMAR} =sxsassesxsassesxszsszssz",
+           f"typed wg Ls {REC_GRAMMAR} =sxsassesxszsz"]
+    for i, (g, alpha, wide) in enumerate(typed_shapes()):
+        ops.append(f"tenum c{'ph'[i % 2]} E {g} ={alpha} {maxlen}")
+        if wide:
+            ops.append(f"tenum wh Lx {g} ={alpha}x {maxlen - 1}")
+    return ops
+
+
+def numeric_long_ops(rng, count):
+    """float_ / uint / int_ on inputs the enumerations cannot reach: long digit strings, leading zeros, values at and next to
+    the rounding boundaries of binary64 (exact doubles, exact midpoints between neighbours = ties, one decimal digit more)"""
+    import struct
+    from decimal import Decimal, getcontext
+    getcontext().prec = 2000
+    ops = []
+
+    def dec(x):
+        t = format(x, "f")
+        if "." not in t:
+            t += ".0"
+        return t.replace(".", "!")
+
+    for i in range(count):
+        k = i % 6
+        if k == 0:      # random long digits
+            a = "".join(rng.choice("0123456789") for _ in range(rng.range(1, 25)))
+            b = "".join(rng.choice("0123456789") for _ in range(rng.range(1, 25)))
+            t = ("-" if rng.chance(1, 3) else "") + a + "!" + b
+        elif k in (1, 2, 3):   # a random finite double, its upper neighbour, the midpoint (tie) and one digit around it
+            e = rng.range(1023 - 70, 1023 + 70)
+            m = rng.below(1 << 52)
+            bits = (e << 52) | m
+            d = Decimal(struct.unpack("<d", struct.pack("<Q", bits))[0])
+            up = Decimal(struct.unpack("<d", struct.pack("<Q", bits + 1))[0])
+            mid = (d + up) / 2
+            t = dec([d, mid, mid][k - 1])
+            if k == 3:
+                t += rng.choice("0159") + rng.choice("01")      # just above the tie (or still the tie with 00)
+            if k == 2 and rng.chance(1, 2):                   # just below the tie: last digit one less, then 9s
+                u = t.rstrip("0")
+                if u[-1] not in "!0":
+                    t = u[:-1] + str(int(u[-1]) - 1) + "99"
+        elif k == 4:
+            z = "0" * rng.range(0, 12)
+            n = rng.choice([65535, 65536, 65534, 0, 1, 99999, 655350, 4294967295, 4294967296, 18446744073709551616, rng.below(70000)])
+            ops.append(f"run c{rng.choice('ph')} E uint ={z}{n}")
+            continue
+        else:
+            z = "0" * rng.range(0, 12)
+            n = rng.choice([32767, 32768, 32769, 0, 1, 65535, 65536, 2147483648, 9223372036854775808, rng.below(40000)])
+            ops.append(f"run c{rng.choice('ph')} E int ={rng.choice(['', '-'])}{z}{n}")
+            continue
+        ce = rng.choice(["cp", "ch", "wp", "cs"])
+        ops.append(f"run {ce} E float ={t}")
+    return ops
+
+
 def batches(rng, tier):
     thorough = tier == "thorough"
+    if not typed_files_current():
+        raise RuntimeError("harness/c02_typed_*.cpp are stale: python3 -c 'import props.c02 as c; c.write_typed_files()'")
+    yield Batch("typed-shapes", typed_ops(6 if thorough else 5), exhaustive=True,
+                note=f"{len(typed_shapes())} statically typed grammars (natural result types of the real templates): static type + "
+                     "flattened value of every input over the alphabet; char/epsilon and wchar_t/literal-skipper worlds")
+    st_terms = small_terms()
+    yield Batch("save-restore-depth2", sys_ops(st_terms, 6 if thorough else 5, SYS_SKIPS, stride=1 if thorough else 2,
+                                               offset=rng.below(2)), exhaustive=thorough,
+                note=f"ALL {len(st_terms)} well-formed terms of depth <= 2 over seq/alt/rep/opt/not and 3 leaves x 5 skippers "
+                     "(3 of them non-idempotent) x all inputs; quick: every second (term, skipper) pair, alternating with the seed")
+    it = interplay_terms()
+    yield Batch("save-restore-interplay", sys_ops(it, 6 if thorough else 5, SYS_SKIPS), exhaustive=True,
+                note=f"{len(it)} nests (alt in rep in opt + sibling, not_ around consuming parsers + sibling, fatal at every "
+                     "partial-consumption site) x 5 skippers x all inputs, stream and string entry points alternating")
+    yield Batch("numeric-long", numeric_long_ops(rng.fork("numlong"), 6000 if thorough else 900), exhaustive=False,
+                note="float_<double> on long random digit strings, exact doubles, exact ties between neighbouring doubles and one digit "
+                     "around them (round-to-nearest-even); uint / int_ with leading zeros and far beyond the range")
     small, big = (6, 8) if thorough else (5, 6)
     mult = 16 if thorough else 4
     st = {}
@@ -291,8 +826,9 @@ MANIFEST = {
                    "everything was consumed) are theorems. The model is tied to the code by a differential correspondence over "
                    "generated well-formed grammars built from the real templates, each run on all inputs over a small alphabet."),
     "level_note": ("Trusted: Lean kernel + propext/Classical.choice/Quot.sound; model fidelity outside the generated grammars; harness and "
-                   "protocol; std::istringstream as a character array. float_ and the typed result plumbing (tuple/variant flattening) "
-                   "are not modelled; termination is proved for every grammar that is well-formed under some ranking of its rules (wf_total: no left recursion, no repetition of a nullable body; recursive grammars included). "
+                   "protocol; std::istringstream as a character array; the decimal->binary64 conversion of float_ (executable model validated "
+                   "by correspondence, not proved). The typed result plumbing (unit dropping, tuple/variant flattening, string-vs-vector) is "
+                   "modelled and proved type-preserving (typed_value_inhabits) and compared on 314 statically typed grammars; termination is proved for every grammar that is well-formed under some ranking of its rules (wf_total: no left recursion, no repetition of a nullable body; recursive grammars included). "
                    "No sorry/axiom/native_decide."),
     "technique": "Lean 4 proof over hand-written executable model (refinement + big-step semantics) + differential correspondence (ASan/UBSan harness, exhaustive inputs per generated grammar)",
     "design_ref": "DESIGN.md §5 C02, Appendix A.1",
